@@ -32,7 +32,10 @@ CHECKS = {
         "either side with the other side's snapshot re-checked",
         "Deep structural snapshots of original and copy around .copy(), "
         "copy.copy, copy.deepcopy and pickle protocols 0-5 on random nested "
-        "containers with duplicate keys, followed by random mutation histories "
+        "containers with duplicate keys (values incl. lists, sets, nested "
+        "containers, quantities and tuples holding lists or sets), followed by "
+        "random mutation histories (every mutable object reachable, also "
+        "through tuples and quantities) "
         "on the copy (original must not move) and on the original (copy must "
         "not move); per-level class and two-representation invariant checks.",
         "Shallow copies are only required to be independent at the top "
@@ -44,9 +47,13 @@ CHECKS = {
         "position/code-point matrix with an error-attribute oracle",
         "char_allowed is compared with the specification for all 1,114,112 "
         "code points x 5 grammars (exhaustive); disallowed characters are "
-        "inserted at 17 syntactic positions (before and after END) for ~1100 "
-        "code points x 3 strict grammars x 2 loader routes and the LexerError "
-        "attributes are checked against the text; default grammar: code "
+        "inserted at 20 syntactic positions (before and after END, behind a "
+        "dash continuation, behind a repaired missing value) for ~1150 "
+        "code points (0..0x2FF, range edges, BOM / zero-width / bidi / Unicode "
+        "space and separator specials, random others) x 3 strict grammars x 2 "
+        "loader routes and the LexerError attributes are checked against the "
+        "text; any-offset insertion into generated documents; thorough: every "
+        "code point at the start of the text and between statements; default grammar: code "
         "points inside quoted strings come back unchanged.",
         "Specification predicate transcribed from the Blue Book / ODL "
         "chapter as quoted in the property. Positions are a fixed template "
@@ -175,7 +182,10 @@ CHECKS.update({
         "CR, FF, VT, runs, block comments with hostile bodies also adjacent "
         "to tokens, '#' comments for ISIS/default); all must load to the "
         "generator's tree; the (token, separator class, token) triples seen "
-        "are in the evidence.",
+        "are in the evidence. Four mixed grammar/decoder configurations "
+        "(ISISGrammar+PVLDecoder, OmniGrammar+ODLDecoder, "
+        "OmniGrammar+PDSLabelDecoder, PVLGrammar+OmniDecoder) are judged "
+        "metamorphically against the plain layout of the same tokens.",
         "Gap rules of DESIGN 3.3 (white space required after <units> and "
         "between word-like tokens; Omni readers: no token ending in '-' before "
         "a line break).",
@@ -301,12 +311,15 @@ CHECKS.update({
     "C18": (
         "recording substitute classes + recursive type walk of the result + "
         "map-back comparison with the plain load",
-        "Generated documents x 5 (parser, decoder) pairings x random subsets "
+        "Generated documents x 8 (parser, decoder) pairings (5 matching, 3 "
+        "with a grammar and a decoder of different dialects) x random subsets "
         "of {real_cls (recording class or Decimal), quantity_cls, module, "
         "group, object classes}: every real is the substitute and saw the "
         "literal's text, every quantity and container is the substitute at "
         "every depth, integers stay int, and mapping the substitutes back "
-        "equals the plain load.",
+        "equals the plain load; without sets the reals seen must be the "
+        "written ones one for one in order; 'equal twin' documents (equal "
+        "reals written differently with identical units at every depth).",
         "Numbers that compare equal collapse inside Python sets; such "
         "documents are compared by value there. PDSLabelDecoder has no "
         "real_cls parameter (not constructible).",
@@ -333,7 +346,8 @@ CHECKS.update({
         "a real process) and pvl_validate (single file report, many-file "
         "table): byte-identical output, failure iff the library fails, each "
         "(row, loads/encodes) cell equal to the harness's verdict, report "
-        "layout, completion; a sample runs the entry points as subprocesses.",
+        "layout, completion (validate runs with no flag, -v and -vv in "
+        "turn); a sample runs the entry points as subprocesses.",
         "In-process calls with captured stdout for speed.",
         "DESIGN.md section 4 C20",
     ),
